@@ -18,24 +18,24 @@ C(name, lalr, g) == [name |-> name, lalr |-> lalr, g |-> g]
 Classics == {
   C("lalr_not_slr", TRUE, Mk(<<"S","L","Rv">>, {"$Eq","$Star","$Id"},
      << R("S", <<"L","$Eq","Rv">>), R("S", <<"Rv">>), R("L", <<"$Star","Rv">>), R("L", <<"$Id">>), R("Rv", <<"L">>) >>)),
-  C("lr1_not_lalr", FALSE, Mk(<<"S","A","B">>, {"$A","$B","$C","$D","$E"},
-     << R("S", <<"$A","A","$D">>), R("S", <<"$B","B","$D">>), R("S", <<"$A","B","$E">>), R("S", <<"$B","A","$E">>),
-        R("A", <<"$C">>), R("B", <<"$C">>) >>)),
-  C("lalr_eps_lookahead", TRUE, Mk(<<"S","A","B">>, {"$A","$B"},
-     << R("S", <<"$A","A","$A">>), R("S", <<"$B","A","$B">>), R("S", <<"$A","B","$B">>), R("S", <<"$B","B","$A">>),
+  C("lr1_not_lalr", FALSE, Mk(<<"S","A","B">>, {"$Ta","$Tb","$Tc","$Td","$Te"},
+     << R("S", <<"$Ta","A","$Td">>), R("S", <<"$Tb","B","$Td">>), R("S", <<"$Ta","B","$Te">>), R("S", <<"$Tb","A","$Te">>),
+        R("A", <<"$Tc">>), R("B", <<"$Tc">>) >>)),
+  C("lalr_eps_lookahead", TRUE, Mk(<<"S","A","B">>, {"$Ta","$Tb"},
+     << R("S", <<"$Ta","A","$Ta">>), R("S", <<"$Tb","A","$Tb">>), R("S", <<"$Ta","B","$Tb">>), R("S", <<"$Tb","B","$Ta">>),
         R("A", <<>>), R("B", <<>>) >>)),
   C("ambiguous_expr", FALSE, Mk(<<"E">>, {"$Plus","$Id"},
      << R("E", <<"E","$Plus","E">>), R("E", <<"$Id">>) >>)),
   C("dangling_else", FALSE, Mk(<<"S">>, {"$If","$Else","$Other"},
      << R("S", <<"$If","S">>), R("S", <<"$If","S","$Else","S">>), R("S", <<"$Other">>) >>)),
-  C("accept_reduce", FALSE, Mk(<<"S">>, {"$A"},
-     << R("S", <<"S">>), R("S", <<"$A">>) >>)),
-  C("unit_cycle_only", FALSE, Mk(<<"S">>, {"$A"},
+  C("accept_reduce", FALSE, Mk(<<"S">>, {"$Ta"},
+     << R("S", <<"S">>), R("S", <<"$Ta">>) >>)),
+  C("unit_cycle_only", FALSE, Mk(<<"S">>, {"$Ta"},
      << R("S", <<"S">>) >>)),
-  C("eps_in_middle", TRUE, Mk(<<"S","B">>, {"$A","$B","$C"},
-     << R("S", <<"$A","B","$C">>), R("B", <<>>), R("B", <<"$B">>) >>)),
-  C("nullable_start_right_rec", TRUE, Mk(<<"S">>, {"$A"},
-     << R("S", <<>>), R("S", <<"$A","S">>) >>)),
+  C("eps_in_middle", TRUE, Mk(<<"S","B">>, {"$Ta","$Tb","$Tc"},
+     << R("S", <<"$Ta","B","$Tc">>), R("B", <<>>), R("B", <<"$Tb">>) >>)),
+  C("nullable_start_right_rec", TRUE, Mk(<<"S">>, {"$Ta"},
+     << R("S", <<>>), R("S", <<"$Ta","S">>) >>)),
   C("left_rec_list", TRUE, Mk(<<"L">>, {"$X"},
      << R("L", <<>>), R("L", <<"L","$X">>) >>)),
   C("expr_term_factor", TRUE, Mk(<<"E","T","F">>, {"$Plus","$Times","$LP","$RP","$Id"},
@@ -43,38 +43,38 @@ Classics == {
         R("F", <<"$LP","E","$RP">>), R("F", <<"$Id">>) >>)),
   C("balanced_parens", TRUE, Mk(<<"Expr">>, {"$LParen","$RParen"},
      << R("Expr", <<>>), R("Expr", <<"$LParen","Expr","$RParen">>) >>)),
-  C("unreachable_nt", TRUE, Mk(<<"S","U">>, {"$A","$B"},
-     << R("S", <<"$A">>), R("U", <<"$B","U">>), R("U", <<"$B">>) >>)),
-  C("unreachable_conflicting_nt", TRUE, Mk(<<"S","U">>, {"$A","$B"},
-     << R("S", <<"$A">>), R("U", <<"U","$B","U">>), R("U", <<"$B">>) >>)),
-  C("unproductive_nt", TRUE, Mk(<<"S","B">>, {"$A","$B"},
-     << R("S", <<"$A">>), R("S", <<"B">>), R("B", <<"B","$B">>) >>)),
-  C("unproductive_after_shift", TRUE, Mk(<<"S","B">>, {"$A","$B"},
-     << R("S", <<"$A","$A">>), R("S", <<"$A","B">>), R("B", <<"$B","B">>) >>)),
-  C("empty_language", TRUE, Mk(<<"S">>, {"$A"},
-     << R("S", <<"S","$A">>) >>)),
+  C("unreachable_nt", TRUE, Mk(<<"S","U">>, {"$Ta","$Tb"},
+     << R("S", <<"$Ta">>), R("U", <<"$Tb","U">>), R("U", <<"$Tb">>) >>)),
+  C("unreachable_conflicting_nt", TRUE, Mk(<<"S","U">>, {"$Ta","$Tb"},
+     << R("S", <<"$Ta">>), R("U", <<"U","$Tb","U">>), R("U", <<"$Tb">>) >>)),
+  C("unproductive_nt", TRUE, Mk(<<"S","B">>, {"$Ta","$Tb"},
+     << R("S", <<"$Ta">>), R("S", <<"B">>), R("B", <<"B","$Tb">>) >>)),
+  C("unproductive_after_shift", TRUE, Mk(<<"S","B">>, {"$Ta","$Tb"},
+     << R("S", <<"$Ta","$Ta">>), R("S", <<"$Ta","B">>), R("B", <<"$Tb","B">>) >>)),
+  C("empty_language", TRUE, Mk(<<"S">>, {"$Ta"},
+     << R("S", <<"S","$Ta">>) >>)),
   C("no_terminals_eps", TRUE, Mk(<<"S">>, {},
      << R("S", <<>>) >>)),
   C("no_terminals_two_nts", TRUE, Mk(<<"S","A">>, {},
      << R("S", <<"A","A">>), R("A", <<>>) >>)),
-  C("variantless_start", TRUE, Mk(<<"S">>, {"$A"}, << >>)),
-  C("variantless_child", TRUE, Mk(<<"S","E">>, {"$A"},
-     << R("S", <<"$A">>), R("S", <<"E","$A">>) >>)),
-  C("palindromes", FALSE, Mk(<<"S">>, {"$A","$B"},
-     << R("S", <<"$A","S","$A">>), R("S", <<"$B","S","$B">>), R("S", <<>>) >>)),
-  C("needs_two_lookahead", FALSE, Mk(<<"S","A","B">>, {"$A","$B","$C"},
-     << R("S", <<"A","$A","$A">>), R("S", <<"B","$A","$B">>), R("A", <<"$C">>), R("B", <<"$C">>) >>)),
-  C("nullable_chain", TRUE, Mk(<<"S","A","B","Cn">>, {"$A","$B","$C"},
-     << R("S", <<"A","B","Cn">>), R("A", <<>>), R("A", <<"$A">>), R("B", <<>>), R("B", <<"$B">>),
-        R("Cn", <<>>), R("Cn", <<"$C">>) >>)),
+  C("variantless_start", TRUE, Mk(<<"S">>, {"$Ta"}, << >>)),
+  C("variantless_child", TRUE, Mk(<<"S","E">>, {"$Ta"},
+     << R("S", <<"$Ta">>), R("S", <<"E","$Ta">>) >>)),
+  C("palindromes", FALSE, Mk(<<"S">>, {"$Ta","$Tb"},
+     << R("S", <<"$Ta","S","$Ta">>), R("S", <<"$Tb","S","$Tb">>), R("S", <<>>) >>)),
+  C("needs_two_lookahead", FALSE, Mk(<<"S","A","B">>, {"$Ta","$Tb","$Tc"},
+     << R("S", <<"A","$Ta","$Ta">>), R("S", <<"B","$Ta","$Tb">>), R("A", <<"$Tc">>), R("B", <<"$Tc">>) >>)),
+  C("nullable_chain", TRUE, Mk(<<"S","A","B","Cn">>, {"$Ta","$Tb","$Tc"},
+     << R("S", <<"A","B","Cn">>), R("A", <<>>), R("A", <<"$Ta">>), R("B", <<>>), R("B", <<"$Tb">>),
+        R("Cn", <<>>), R("Cn", <<"$Tc">>) >>)),
   C("unit_chain", TRUE, Mk(<<"S","A","B","Cn">>, {"$X"},
      << R("S", <<"A">>), R("A", <<"B">>), R("B", <<"Cn">>), R("Cn", <<"$X">>) >>)),
-  C("hidden_left_rec", FALSE, Mk(<<"S","A">>, {"$A","$B"},
-     << R("S", <<"A","S","$B">>), R("S", <<"$A">>), R("A", <<>>) >>)),
-  C("same_rhs_two_nts_lalr", TRUE, Mk(<<"S","A","B">>, {"$A","$B","$C"},
-     << R("S", <<"$A","A">>), R("S", <<"$B","B">>), R("A", <<"$C">>), R("B", <<"$C">>) >>)),
-  C("reduce_reduce_eps", FALSE, Mk(<<"S","A","B">>, {"$A"},
-     << R("S", <<"A","$A">>), R("S", <<"B","$A">>), R("A", <<>>), R("B", <<>>) >>)),
+  C("hidden_left_rec", FALSE, Mk(<<"S","A">>, {"$Ta","$Tb"},
+     << R("S", <<"A","S","$Tb">>), R("S", <<"$Ta">>), R("A", <<>>) >>)),
+  C("same_rhs_two_nts_lalr", TRUE, Mk(<<"S","A","B">>, {"$Ta","$Tb","$Tc"},
+     << R("S", <<"$Ta","A">>), R("S", <<"$Tb","B">>), R("A", <<"$Tc">>), R("B", <<"$Tc">>) >>)),
+  C("reduce_reduce_eps", FALSE, Mk(<<"S","A","B">>, {"$Ta"},
+     << R("S", <<"A","$Ta">>), R("S", <<"B","$Ta">>), R("A", <<>>), R("B", <<>>) >>)),
   C("json", TRUE, Mk(<<"Json","Obj","Arr","Elems","Pair","Members">>,
                      {"$LCurly","$RCurly","$LSquare","$RSquare","$Comma","$Colon","$Str","$Num"},
      << R("Json", <<"Obj">>), R("Json", <<"Arr">>), R("Json", <<"$Str">>), R("Json", <<"$Num">>),
